@@ -102,10 +102,10 @@ pub fn clone_any_capacity() {
     kani::cover!(true, "end of harness reached");
 }
 
-/// Clone of a 4 KiB text.
-pub fn clone_4k() {
+/// Clone of an `n`-byte text (n <= 4096).
+pub fn clone_4k(n: usize) {
     static BIG: [u8; 4096] = [b'k'; 4096];
-    let s = unsafe { core::str::from_utf8_unchecked(&BIG) };
+    let s = unsafe { core::str::from_utf8_unchecked(&BIG[..n]) };
     let t = LeanString::from(s);
     let before = shim::snap();
     shim::forbid(true);
@@ -117,11 +117,11 @@ pub fn clone_4k() {
     assert!(shim::snap().reqs == before.reqs, "[C08] cloning 4 KiB issued an allocator request");
     assert!(c.as_str().as_ptr() == t.as_str().as_ptr() && d.as_str().as_ptr() == t.as_str().as_ptr() && e.as_str().as_ptr() == t.as_str().as_ptr(),
         "[C08] copies do not share the 4 KiB buffer");
-    assert!(c.len() == 4096 && d.len() == 4096 && e.len() == 4096, "[C08] len of the copies");
+    assert!(c.len() == n && d.len() == n && e.len() == n, "[C08] len of the copies");
     drop(t);
     drop(c);
     assert!(shim::live() == 1, "[C08] buffer released while clones are alive");
-    assert!(d.as_bytes()[4095] == b'k' && e.as_bytes()[0] == b'k', "[C08] clone unreadable after the original was dropped");
+    assert!(d.as_bytes()[n - 1] == b'k' && e.as_bytes()[0] == b'k', "[C08] clone unreadable after the original was dropped");
     drop(d);
     drop(e);
     assert!(shim::live() == 0, "[MEM] leak");
